@@ -129,7 +129,7 @@ fn main() {
         }
     }
     // ---- Reply
-    let errors: [Option<&'static str>; 3] = [None, Some("org.varlink.service.InvalidParameter"), Some("x.y.Custom\"ä")];
+    let errors: [Option<&'static str>; 5] = [None, Some("org.varlink.service.InvalidParameter"), Some("x.y.Custom\"ä"), Some(""), Some(" ")];
     for continues in flags {
         for e in errors {
             for p in &params {
@@ -317,7 +317,7 @@ fn main() {
         }
     }
     for cont in tri("continues", json!(true)) {
-        for err in tri("error", json!("a.b.E")) {
+        for err in [None, Some(Value::Null), Some(json!("a.b.E")), Some(json!(""))] {
             for p in tri("parameters", json!({"x": [1, null], "big": u64::MAX, "edge": 9223372036854775808u64, "min": i64::MIN, "f": 1e19})) {
                 let mut o = serde_json::Map::new();
                 for (k, v) in [("continues", &cont), ("error", &err), ("parameters", &p)] {
